@@ -153,9 +153,6 @@ fn determinism_probe(cfgs: &[exec::Cfg]) -> Result<u64, String> {
 
 fn check(prop: &str, tier: &str, threads: usize, cap: f64) -> String {
     let t0 = Instant::now();
-    if let Some(json) = special::check(prop, tier, threads, cap) {
-        return json;
-    }
     let cfgs = props::scenarios(prop, tier);
     assert!(!cfgs.is_empty(), "no scenarios for {}", prop);
     let det = determinism_probe(&cfgs);
@@ -188,13 +185,15 @@ fn check(prop: &str, tier: &str, threads: usize, cap: f64) -> String {
         }
     }
     let st = &outcome.stats;
+    let extra = if outcome.machinery_error.is_none() { special::extra(prop, tier, threads) } else { None };
+    let (xe, xs, xt) = extra.as_ref().map(|e| (e.executions, e.states, e.transitions)).unwrap_or((0, 0, 0));
     let _ = write!(
         o,
         "\"scenarios\":{},\"executions\":{},\"states\":{},\"transitions\":{},\"ops_applied\":{},\"epilogue_steps\":{},\"choice_points\":{},\"distinct_outcomes\":{},\"horizon_hits\":{},\"quiesce_runs\":{},\"max_depth_completed\":{},\"max_ops_in_one_history\":{},\"delta\":{},\"capped\":{},\"timed_out\":{},\"determinism_probe_runs\":{},\"threads\":{},\"wall_s\":{:.3},",
         cfgs.len(),
-        st.executions,
-        st.states.len(),
-        st.executions.saturating_sub(cfgs.len() as u64) + st.epilogue_steps,
+        st.executions + xe,
+        st.states.len() as u64 + xs,
+        st.executions.saturating_sub(cfgs.len() as u64) + st.epilogue_steps + xt,
         st.ops_applied,
         st.epilogue_steps,
         st.choice_points,
@@ -210,9 +209,15 @@ fn check(prop: &str, tier: &str, threads: usize, cap: f64) -> String {
         threads,
         t0.elapsed().as_secs_f64()
     );
-    let names: Vec<String> = cfgs.iter().map(|c| format!("{} (depth {}, delta {})", c.name, c.depth, c.delta)).collect();
+    let mut names: Vec<String> = cfgs.iter().map(|c| format!("{} (depth {}, delta {})", c.name, c.depth, c.delta)).collect();
+    let mut all_samples = outcome.samples.clone();
+    if let Some(e) = &extra {
+        names.extend(e.names.iter().cloned());
+        all_samples.splice(0..0, e.samples.iter().cloned());
+        let _ = write!(o, "\"x_special\":{},\"x_special_executions\":{},", jstr(&e.note), e.executions);
+    }
     let _ = write!(o, "\"scenario_names\":{},", jlist(&names));
-    let samples: Vec<String> = outcome.samples.iter().map(|s| jlist(s)).collect();
+    let samples: Vec<String> = all_samples.iter().map(|s| jlist(s)).collect();
     let _ = write!(o, "\"samples\":[{}],", samples.join(","));
     if let Some(e) = &outcome.machinery_error {
         let _ = write!(o, "\"machinery_error\":{},", jstr(e));
@@ -236,6 +241,11 @@ fn check(prop: &str, tier: &str, threads: usize, cap: f64) -> String {
             same,
             jlist(&a.log)
         ));
+    }
+    if let Some(e) = &extra {
+        if !e.found.is_empty() {
+            fs.push(special::extra_json(e));
+        }
     }
     let _ = write!(o, "\"found\":[{}]}}", fs.join(","));
     o
